@@ -243,17 +243,29 @@ def _check_data_summary(ex, func, args, kwargs, so, node):
 
 def _generic_driver_summary(ex, func, args, kwargs, so, node):
     ex.emit("driver_call", node, driver=func.qualname)
-    import ast as _ast
-
-    n = 1
-    for nd in _ast.walk(func.node):
-        if isinstance(nd, _ast.Return) and isinstance(nd.value, _ast.Tuple):
-            n = max(n, len(nd.value.elts))
+    n = n_outputs(ex.P, func)
     outs = []
     for i in range(n):
         ex.list_counter += 1
         outs.append(ListV([], opaque=True, lid=ex.list_counter) if i and "capa" in func.name else ex.mk("driver_out", func.qualname, i, shape=(sym(f"q{i}"),), dtype="float"))
     return outs[0] if n == 1 else TupleV(outs)
+
+
+def n_outputs(P, func, depth=3):
+    """number of values a driver returns (following `return other_driver(...)`)"""
+    import ast as _ast
+
+    from ..index import FuncInfo as _F
+
+    n = 1
+    for nd in _ast.walk(func.node):
+        if isinstance(nd, _ast.Return) and isinstance(nd.value, _ast.Tuple):
+            n = max(n, len(nd.value.elts))
+        elif isinstance(nd, _ast.Return) and isinstance(nd.value, _ast.Call) and depth > 0 and isinstance(nd.value.func, (_ast.Name, _ast.Attribute)):
+            r = P.resolve_expr(func.module, nd.value.func)
+            if isinstance(r, _F) and r is not func:
+                n = max(n, n_outputs(P, r, depth - 1))
+    return n
 
 
 def check_data_calls(ctx, pkg, name):
